@@ -11,6 +11,9 @@ ALL = []
 STUBSETS = {
     # name -> (kani attributes, human description for the evidence file)
     "none": ([], []),
+    "nextdata": (["#[kani::stub(scpi::parser::parameters::Parameters::next_data, crate::stubs::next_data_stub)]"],
+                 ["Parameters::next_data::<T> -> contract stub: returns the harness's symbolic u8/u16, or -109 / -222 "
+                  "(that the real lexer + TryFrom deliver the denoted value is decided in C04/C07)"]),
     "float": (["#[kani::stub(lexical_core::parse, crate::stubs::lexical_parse_stub)]"],
               ["lexical_core::parse::<f32|f64> -> contract stub returning the harness's symbolic float (integer "
                "requests still run the real lexical-core)"]),
@@ -85,6 +88,27 @@ for t, n, tier in [("u8", 3, "q"), ("u8", 4, "q"), ("i8", 4, "q"), ("u16", 5, "q
       f"parser == reference accumulator value, or -222 when outside the type", f"all NR1 literals of {n} bytes",
       cap_s=(3600 if tier == "ta" else 600), mem_gb=4, stubset="float", unwind=12, also=["C01"])
 
+# ---------------------------------------------------------------------------- C14
+H("c14_q_custom_mask", "C14", "c14::custom_mask", "Error::custom(c,_).esr_mask() and ErrorCode::Custom(c,_).esr_mask() "
+  "== IEEE 488.2 class table, get_code()==c", "all 65536 error numbers", cap_s=120, mem_gb=2, sample=True)
+H("c14_q_lookup", "C14", "c14::lookup", "ErrorCode::get_error(c)=Some(x) => x.get_code()==c and x.esr_mask()==class "
+  "table(c), also through Error::new(x)", "all 65536 error numbers", cap_s=120, mem_gb=2, sample=True)
+H("c14_q_variants", "C14", "c14::variants", "every standard ErrorCode variant (list regenerated from error.rs on every "
+  "run): declared code/message, get_error(code)==Some(variant), class bit", "all standard variants (symbolic index)",
+  cap_s=400, mem_gb=5, unwind=48)
+
+# ---------------------------------------------------------------------------- C15
+H("c15_q_register_ops", "C15", "c15::register_ops", "EventRegister::{set_condition, set_condition_bits, "
+  "clear_condition_bits, clear_event, preset} from an arbitrary register vs a per-bit latch specification",
+  "all 2^80 register states x all 16-bit arguments; one inductive step", cap_s=120, mem_gb=2, sample=True)
+for ques in ("false", "true"):
+    nm = "ques" if ques == "true" else "oper"
+    H(f"c15_q_commands_{nm}", "C15", f"c15::commands::<{ques}, _>",
+      f"EVENt?/CONDition?/ENABle[?]/NTRansition[?]/PTRansition[?] of the {nm.upper()} set and STATus:PRESet called "
+      f"directly on an arbitrary device: response value (bit 15 clear), read-and-clear, write-read-back, frame conditions",
+      "all register states of both sets, ESR/ESE/SRE, all u16 parameters, missing / out-of-range parameter",
+      cap_s=400, mem_gb=4, stubset="nextdata", unwind=12, sample=True)
+
 PROPS = {
     "C07": {
         "bounds": {"quick": "fallback kernel: every non-NaN float; fast path: sign + <= 4 digits; non-decimal: any u64; "
@@ -105,6 +129,33 @@ PROPS["C07"].update({
     "level_note": "Trusted: Kani/CBMC/CaDiCaL; lexical-core's float parser returns the correctly rounded value of the "
                   "literal (stubbed by contract under Kani, real in the native replay); bounds on NR1 digit count.",
 })
+
+PROPS["C14"] = {
+    "bounds": "all 65536 error numbers; all standard variants; library-raised errors: those reachable in the C04/C07/C08/"
+              "C19 harnesses (asserted there)",
+    "outside": "errors raised by user handlers (not library code)",
+    "assumptions": [],
+    "level_text": "Bounded model checking, exhaustive over the finite domain: one SAT query per obligation ranges over all "
+                  "65536 error numbers (custom and standard) and compares ErrorCode/Error::esr_mask and the derive-"
+                  "generated get_code/get_error tables with an independently written IEEE 488.2 class table; the class "
+                  "of library-raised errors is asserted inside the lexer/conversion harnesses of C04/C07/C08/C19.",
+    "level_note": "Trusted: Kani/CBMC/CaDiCaL; the class table in oracles/esr.rs (transcribed from SCPI-99 21.8); the "
+                  "regular expression that lists the variants from error.rs (its count is cross-checked against the "
+                  "number of #[error(code..)] attributes).",
+}
+
+PROPS["C15"] = {
+    "bounds": "one operation from an arbitrary state of both register sets (identity abstraction => histories of any "
+              "length); 16-bit arguments unrestricted",
+    "outside": "the text->u16 step of ENABle/PTR/NTR parameters (Parameters::next_data is stubbed; decided in C04/C07); "
+               "*CLS's effect on the event registers is decided in C16",
+    "assumptions": ["Parameters::next_data::<u16> returns the denoted value or a documented error (contract stub)"],
+    "level_text": "Bounded model checking as an inductive step: the five registers of each set, the argument and the "
+                  "operation are symbolic, so one SAT query covers every reachable and unreachable state and therefore "
+                  "every history; the commands are the real handlers called through the public Command trait, their "
+                  "responses decoded by an independent NR1 decoder.",
+    "level_note": "Trusted: Kani/CBMC/CaDiCaL; the per-bit latch specification in checks/c15.rs; the next_data contract stub.",
+}
 
 # properties whose check is still being built (kept current as the work proceeds)
 NOT_YET = {}
